@@ -105,11 +105,19 @@ def scenarios(pool, extra_keys, tier):
         "jwks 1 del", "bl 0 free", "ck 0 free"]
     sc["unsigned-and-malformed"] = [
         "clock 1000", "bl 0 new", "bl 0 cset int %s 5 0" % hx(b"n"), "bl 0 cset bool %s 1 0" % hx(b"t"), "bl 0 cset str %s %s 0" % (hx(b"s"), hx(b"v")),
+        "bl 0 cset json %s %s 0" % (hx(b"j"), hx(b'{"y":[1,"z"]}')), "bl 0 hset json %s %s 1" % (hx(b"crit"), hx(b'["a"]')),
+        "bl 0 cset json %s %s 0" % (hx(b"j"), hx(b'[2]')), "bl 0 cset str %s %s 1" % (hx(b"s"), hx(b"w")), "bl 0 cset int %s 6 1" % hx(b"n"),
         "bl 0 gen", "ck 0 new", "ck 0 verify @last", "ck 0 verify %s" % hx(b"e30.e30."), "ck 0 verify %s" % hx(b"nodots"),
         "ck 0 leeway exp 5", "bl 0 cdel %s" % hx(b"n"), "bl 0 hdel -", "bl 0 free", "ck 0 free"]
     set3 = json.dumps({"keys": [oct_.jwk(extra={"kid": "a"}), {"kty": "oct", "k": ""}, oct_.jwk(extra={"kid": "b"})]}).encode()
     sc["jwks-set"] = ["jwks 2 load %s strn" % hx(set3), "jwks 2 count", "jwks 2 item 0", "jwks 2 item 1", "jwks 2 item 2", "jwks 2 find %s" % hx(b"b"), "jwks 2 freebad",
                       "jwks 2 free 0", "jwks 2 load %s str" % hx(jwk), "jwks 2 count", "jwks 2 item 0", "jwks 2 item 1", "jwks 2 errany", "jwks 2 del"]
+    # a load into a keyring whose keys are already in use: whatever the failing load does, the keys that were there
+    # before stay where they are (the builder and the checker hold pointers to them)
+    sc["jwks-append-in-use"] = [
+        "clock 1000", "jwks 5 load %s strn" % hx(jwk), "ck 0 new", "ck 0 setkey 0 5 0", "bl 0 new", "bl 0 setkey 0 5 0", "bl 0 gen", "ck 0 verify @last",
+        "jwks 5 load %s strn" % hx(set3), "jwks 5 item 0", "ck 0 verify @last", "bl 0 gen", "jwks 5 find %s" % hx(b"k1"), "jwks 5 count",
+        "bl 0 free", "ck 0 free", "jwks 5 del"]
     keys = [("rsa2048", "RS256"), ("p256", "ES256"), ("ed25519", "EdDSA")]
     if tier == "thorough":
         keys += [("rsa2048", "PS384")]
